@@ -196,7 +196,8 @@ def to_tuple(x):
 def oracle(ctx, name, n, ps, fovs, ns, desc, full_cache):
     k = len(ps)
     sig = lambda what: {"signature": "C19:%s:n%d:%s:%s" % (name, n, desc, what), "instrument": name,  # noqa
-                        "scans": n, "positions": desc, "position_list": [int(p) for p in ps][:64]}
+                        "scans": n, "positions": desc,
+                        "position_list": "range(%d)" % len(ps) if list(ps) == list(range(len(ps))) else [int(p) for p in ps]}
     if name in SWATH:
         if fovs.shape != (2, n, k) or ns.shape != (n, k):
             ctx.violation("shape of %s geometry is %s / %s, expected (2,%d,%d) / (%d,%d)" % (
@@ -387,7 +388,8 @@ def run(ctx):
             except Exception as e:  # noqa
                 ctx.case(key)
                 ctx.violation("definition function raises %s: %s" % (type(e).__name__, e),
-                              {"signature": "C19:%s:n%d:%s:raises" % (name, n, desc), **info, "position_list": list(ps)[:64]})
+                              {"signature": "C19:%s:n%d:%s:raises" % (name, n, desc), **info,
+                               "position_list": "range(%d)" % len(ps) if list(ps) == list(range(len(ps))) else list(ps)})
                 continue
             ctx.case(key, dict(info, fovs_shape=list(fovs.shape), first_line_ns=[int(x) for x in ns[0][:3]]) if desc == "edges" else None)
             oracle(ctx, name, n, ps, fovs, ns, desc, full_cache)
@@ -418,3 +420,26 @@ def run(ctx):
                     else:
                         detail.update(model=str(mexp[L]), impl=str(iexp[L]))
                 ctx.corr_fail("M_Instruments.times B64 vs %s().times(start) [ns]" % name, detail)
+
+
+def replay(ctx, rp):
+    """re-run the oracle on the failing inputs of a replay file"""
+    seen = set()
+    for f in rp.get("failing_inputs", []):
+        pl = f.get("position_list")
+        ps = list(range(int(pl[6:-1]))) if isinstance(pl, str) else [int(p) for p in pl]
+        key = (f["instrument"], f["scans"], tuple(ps))
+        if key in seen:
+            continue
+        seen.add(key)
+        try:
+            fovs, ns = impl_arrays(f["instrument"], f["scans"], ps, default_full=f.get("positions") == "full")
+        except Exception as e:  # noqa
+            ctx.violation("definition function raises %s: %s" % (type(e).__name__, e), dict(f))
+            continue
+        oracle(ctx, f["instrument"], f["scans"], ps, fovs, ns, f.get("positions", "replay"), {})
+    for v in ctx.violations:
+        print("VIOLATION property=C19 %s: %s" % (v.get("signature"), v.get("what")))
+    if not ctx.violations:
+        print("OK property=C19 replay: no failing input reproduces")
+    return 1 if ctx.violations else 0
